@@ -104,6 +104,20 @@ type Job struct {
 	Lines   map[string]*Template // templates bound to verifLine names
 	Params  map[string]string    // free-form parameters readable via verifParam
 	MaxPaths int
+
+	mbMu    sync.Mutex
+	mbCount map[string]int
+}
+
+// modelBudget: witnesses are searched for the first instances of a violated obligation only.
+func (j *Job) modelBudget(id string) bool {
+	j.mbMu.Lock()
+	defer j.mbMu.Unlock()
+	if j.mbCount == nil {
+		j.mbCount = map[string]int{}
+	}
+	j.mbCount[id]++
+	return j.mbCount[id] <= 3
 }
 
 type PathResult struct {
